@@ -365,6 +365,71 @@ theorem c18_http_shutdown_steps_enabled (g : Cfg) (s : St) :
   · intro h1 h2 h3 h4; simp [step, h1, h2, h3]; exact h4
   · intro h1 h2 h3; simp [step, h1, h2, h3]
 
+/-- settled conns on the repaired tree: closed or never registered, no count held, not in an add path -/
+theorem settled_facts {c : C} (h : CF c) (hs : settled c = true) :
+    c.wg = false ∧ inAddPath c = false ∧ (c.kind = .nb → c.ph = .live → c.closed = true) := by
+  obtain ⟨hc, hf⟩ := h
+  have hwg : c.wg = false := by
+    cases hw : c.wg with
+    | false => rfl
+    | true =>
+      have h3 := hf hw
+      unfold settled at hs
+      rcases h3.2.2 with hp | hp
+      · simp [hp] at hs
+      · simp only [hp, decide_eq_true_eq] at hs
+        have := (hc.job_cl (by rw [hs.2]; simp)).1
+        rw [h3.2.1] at this; cases this
+  refine ⟨hwg, ?_, ?_⟩
+  · unfold settled at hs
+    unfold inAddPath
+    cases hp : c.ph <;> simp [hp] at hs ⊢
+  · intro _ hp
+    unfold settled at hs
+    simp only [hp, decide_eq_true_eq] at hs
+    exact (hc.job_cl (by rw [hs.2]; simp)).1
+
+/-- **The HTTP engine's Stop / Shutdown returns nil once every conn is settled** (repaired tree, one theorem): from any
+    reachable state in which the listeners are closed, `closeAllConns` has run, the context has not expired and every
+    conn is settled, the remaining statements of Stop / Shutdown — the tick that sees the empty map (Shutdown only),
+    the core engine's Stop, `wgConn.Wait()`, `onStop`, the final `g.Wait()` — all run, in this order, and the value
+    returned is nil. With `c18_http_unsettled_can_step` + `c18_http_conn_steps_bounded` (every closed conn becomes
+    settled under fair scheduling) and `c18_http_sweep_closes_all`: Stop, and Shutdown with a live context, return. -/
+theorem c18_http_stop_returns_when_settled (as : List Act) :
+    let s := run fixed init as
+    s.sp = .sweeping → s.ret = .none → s.sweeps ≥ 1 → (∀ c ∈ s.conns, settled c = true) →
+      let s' := run fixed s [.tick, .coreBegin, .coreWaited, .coreFinish]
+      s'.ret = .ok ∧ s'.sp = .returned ∧ s'.conns = s.conns := by
+  intro s hsp hret hsw hset
+  have hcf : AllC CF s := allCF_run as init (by intro c hc; simp [init] at hc)
+  have hci : AllC CInv s := fun c hc => (hcf c hc).1
+  have hg := (inv_run (g := fixed) as init allCInv_init ginv_init).2
+  have hon : online s = 0 := online_zero_of_settled hci hset
+  have hfacts := fun c hc => settled_facts (hcf c hc) (hset c hc)
+  -- the core engine's Stop finds nothing open in its table
+  have hcc : ∀ e, coreCloseAll e s.conns = s.conns := by
+    intro e
+    unfold coreCloseAll
+    apply closeWhere_id
+    intro c hc hp
+    simp only [Bool.and_eq_true, beq_iff_eq] at hp
+    exact (hfacts c hc).2.2 hp.1 hp.2
+  have hwg : (s.conns.all fun c => !c.wg) = true := by
+    rw [List.all_eq_true]; intro c hc; simp [(hfacts c hc).1]
+  have hap : (s.conns.all fun c => !inAddPath c) = true := by
+    rw [List.all_eq_true]; intro c hc; simp [(hfacts c hc).2.1]
+  have hdr : s.drained = true → s.graceful = true := fun h => (hg.dr h).1
+  -- case split on the flags the tick looks at
+  cases hgr : s.graceful <;> cases hd : s.drained
+  · -- Stop: no tick
+    simp [run, step, hsp, hret, hgr, hd, hsw, hon, hcc, hwg, hap]
+  · exact absurd (hdr hd) (by simp [hgr])
+  · -- Shutdown, map not yet seen empty: the tick sees it
+    simp [run, step, hsp, hret, hgr, hd, hsw, hon, hcc, hwg, hap]
+  · -- Shutdown, already drained
+    simp [run, step, hsp, hret, hgr, hd, hsw, hon, hcc, hwg, hap]
+
+
 /-- **At `onStop` every registered conn's close job has been handed to the executor** (both trees): when
     `wgConn.Wait()` returns, every conn that was registered in a poller has been closed and its close job — which
     deletes the key and calls `_onClose` — was submitted while the executor was still running; none is dropped. -/
